@@ -98,7 +98,7 @@ class C08(Prop):
                 pipe = rng.choice([["take", str(rng.randint(1, 3))], ["map", "add1"], ["skip", "1"],
                                    ["filter", "even"], ["first"]]) + [pipe]
             mode = rng.choice(["fifo", "mixed"])
-            evs = tg.events(rng, rng.randint(4, 16), hot=False, mode=mode, unsub_p=0.04)
+            evs = tg.events(rng, tg.hist_len(rng, 4, 16), hot=False, mode=mode, unsub_p=0.04)
             out.append(Case("time", rng.choice(["local", "threads"]), [("pipe", [pipe])], evs,
                             {"kind": mode, "src": src[0]}))
         return tg.with_units(seed, out)
